@@ -88,6 +88,21 @@ def markupCase (c : S) : List String :=
     let reused := markupObsOf (parseRunes st (markupLine line)).2
     let fresh := markupObsOf (parseRunes {} (markupLine line)).2
     [reused, if fresh == reused then "FRESH same" else "FRESH diff " ++ fresh]
+  | _ :: _ :: _ :: .atom "utf8" :: line :: _ =>
+    [String.join ((markupLine line).map fun c => Obs.hexDigits c.toNat ++ ".")]
+  | _ :: _ :: _ :: .atom "unicode" :: lo :: hi :: _ =>
+    let cps := (List.range (hi.toNat - lo.toNat)).map (· + lo.toNat)
+    let cls := cps.map fun cp =>
+      if 0xD800 ≤ cp && cp ≤ 0xDFFF then '-' else
+      let c := Char.ofNat cp
+      Char.ofNat (48 + (if Unicode.isSpace c then 1 else 0) + (if Unicode.isLetter c then 2 else 0) +
+        (if Unicode.isDigit c then 4 else 0))
+    let low := cps.filterMap fun cp =>
+      if 0xD800 ≤ cp && cp ≤ 0xDFFF then none else
+      let c := Char.ofNat cp
+      let l := Unicode.toLower c
+      if l ≠ c then some (Obs.hexDigits cp ++ ">" ++ Obs.hexDigits l.toNat ++ ".") else none
+    [String.ofList cls ++ "|" ++ String.join low]
   | _ => ["BADCASE"]
 
 end Ysgo.Drv
